@@ -3,6 +3,7 @@ package checks
 import (
 	"encoding/json"
 	"fmt"
+	"strings"
 	"time"
 
 	"verif/mc/internal/fw"
@@ -16,11 +17,12 @@ import (
 // real evaluator against the reference abstract machine (results, errors, and the document state afterwards).
 
 type exprCase struct {
-	Expr string          `json:"expr"`
-	AST  *refsem.E       `json:"ast"`
-	Doc  string          `json:"doc"`
-	Kind string          `json:"kind"`
-	DocV json.RawMessage `json:"-"`
+	Expr     string          `json:"expr"`
+	AST      *refsem.E       `json:"ast"`
+	Doc      string          `json:"doc"`
+	Kind     string          `json:"kind"`
+	DocV     json.RawMessage `json:"-"`
+	Together []string        `json:"documents_evaluated_together,omitempty"`
 }
 
 func c01Space(tier string) (exprs []*refsem.E, docs []*val.V, bound string) {
@@ -93,7 +95,7 @@ func c01Run(c *fw.Ctx) error {
 	exprs, docs, bound := c01Space(c.Tier)
 	sExprs, sDocs := c01Streams(true)
 	bExprs, bDocs := c01Scopes()
-	c.Res.Bound = bound + fmt.Sprintf("; streams: `.[] | e` for the %d expressions e of G(2) x %d pair/triple documents from a pool of differently sized containers; scopes: %d binder/continuation expressions x %d documents",
+	c.Res.Bound = bound + fmt.Sprintf("; streams: `.[] | e` for the %d expressions e of G(2) x %d pair/triple documents from a pool of differently sized containers; scopes: %d binder/continuation expressions x %d documents; together: G(2) and the context-sensitive operators on mixed streams x every tuple of <= 3 of 6 documents evaluated together",
 		len(sExprs), len(sDocs), len(bExprs), len(bDocs))
 	reduced := 0
 	var idx int64
@@ -150,7 +152,81 @@ func c01Run(c *fw.Ctx) error {
 	space("core", exprs, docs)
 	space("streams", sExprs, sDocs)
 	space("scopes", bExprs, bDocs)
+	// documents evaluated together (eval-all): binary operators, `as` and `[...]` see the whole context at once when it consists of
+	// such documents only, and node by node otherwise (a stream that mixes a whole document with one of its children)
+	tExprs, tDocs := c01Together()
+	for i, e := range tExprs {
+		idx++
+		if !c.Mine(idx) || c.Expired() {
+			continue
+		}
+		text := e.String()
+		parsed, err, pan := impl.Parse(text)
+		if err != nil || pan != nil {
+			c.Violation("parse-error:"+text, int64(i), exprCase{Expr: text, AST: e, Doc: "null", Kind: "parse-error"}, fmt.Sprintf("well-formed expression rejected: %v %v", err, pan))
+			continue
+		}
+		for _, ds := range tDocs {
+			r := compareCaseDocs(e, parsed, ds, true, true)
+			c.Eval(1)
+			c.Count("evaluations_together", 1)
+			c.Outcome(r.Outcome)
+			var texts []string
+			for _, d := range ds {
+				texts = append(texts, d.YAMLFlow())
+			}
+			switch r.Kind {
+			case "":
+				c.Validated(1)
+				if r.Defined {
+					c.Nontrivial(text + "\x00" + strings.Join(texts, "|"))
+				}
+			case "undef":
+				c.Count("undefined_by_reference", 1)
+			default:
+				c.Validated(1)
+				c.Count("mismatch_"+r.Kind, 1)
+				c.Violation(r.Kind+":together:"+text, int64(e.Size())*1000+int64(len(ds)), exprCase{Expr: text, AST: e, Doc: "null", Kind: r.Kind, Together: texts},
+					fmt.Sprintf("expr %q on documents [%s] evaluated together: %s", text, strings.Join(texts, " ; "), r.Detail))
+			}
+		}
+	}
 	return nil
+}
+
+// c01Together: expressions and document tuples for the eval-all section.
+func c01Together() (exprs []*refsem.E, docs [][]*val.V) {
+	var pool []*val.V
+	for _, t := range []string{`{"a": 1, "b": 2}`, `{"a": [2], "b": [3]}`, `{"a": "x"}`, `[1, 2]`, `3`, `{"b": {"a": 1}}`} {
+		pool = append(pool, fromJSONText(t))
+	}
+	for _, x := range pool {
+		docs = append(docs, []*val.V{x})
+		for _, y := range pool {
+			docs = append(docs, []*val.V{x, y})
+			for _, z := range pool[:3] {
+				docs = append(docs, []*val.V{x, y, z})
+			}
+		}
+	}
+	exprs = append(exprs, refsem.CoreAlphabet(true).Enumerate(2)...)
+	// the three operators on streams that mix whole documents with nodes below them, and on their own
+	self, a, b := refsem.Leaf("self"), refsem.Key("a"), refsem.Key("b")
+	var bodies []*refsem.E
+	for _, op := range []string{"add", "mul", "eq", "alt", "and", "union"} {
+		if op != "union" { // `. , .` is a listed finding of its own
+			bodies = append(bodies, refsem.Bin(op, self, self))
+		}
+		bodies = append(bodies, refsem.Bin(op, a, b), refsem.Bin(op, self, a))
+	}
+	bodies = append(bodies, refsem.Un("collect", self), refsem.Un("collect", a), refsem.As(a, "x", refsem.Un("collect", refsem.Var("x"))), refsem.As(self, "x", refsem.Bin("add", refsem.Var("x"), self)))
+	for _, body := range bodies {
+		exprs = append(exprs, body)
+		for _, stream := range []*refsem.E{refsem.Bin("union", self, a), refsem.Bin("union", a, self), refsem.Bin("union", a, b), refsem.Leaf("splat")} {
+			exprs = append(exprs, refsem.Bin("pipe", stream, body))
+		}
+	}
+	return
 }
 
 func exprReplay(checkDoc bool) func(raw json.RawMessage) (bool, string, error) {
@@ -163,6 +239,17 @@ func exprReplay(checkDoc bool) func(raw json.RawMessage) (bool, string, error) {
 		parsed, err, pan := impl.Parse(cs.AST.String())
 		if err != nil || pan != nil {
 			return cs.Kind == "parse-error", fmt.Sprintf("parse: %v %v", err, pan), nil
+		}
+		if len(cs.Together) > 0 {
+			var ds []*val.V
+			for _, t := range cs.Together {
+				ds = append(ds, fromJSONText(t))
+			}
+			r := compareCaseDocs(cs.AST, parsed, ds, true, checkDoc)
+			if r.Kind == "" || r.Kind == "undef" {
+				return false, "", nil
+			}
+			return true, fmt.Sprintf("expr %q on documents %v evaluated together: %s: %s", cs.AST.String(), cs.Together, r.Kind, r.Detail), nil
 		}
 		r := compareCase(cs.AST, parsed, doc, checkDoc)
 		if r.Kind == "" || r.Kind == "undef" {
